@@ -1492,6 +1492,145 @@ fn c07_has_move() {
     assert!(setup.has_move(&pb).is_none(), "C07: setup always has a move");
 }
 
+// A WRITE-FREE realisation of the history oracle for harnesses that also hold several `Vec`s (a memo table written inside a
+// stub body makes CBMC report spurious dealloc failures there, DESIGN 12.4 no. 1): three symbolic (key, answer) pairs and a
+// symbolic default, all chosen before the call.  For every run that queries at most four distinct keys this ranges over every
+// boolean function of the queried keys, so it is as general as the memoising oracle.
+pub static mut TW_K: [u64; 3] = [0; 3];
+pub static mut TW_V: [bool; 3] = [false; 3];
+pub static mut TW_D: bool = false;
+pub fn twice_pure(k: u64) -> bool {
+    unsafe {
+        if k == TW_K[0] {
+            TW_V[0]
+        } else if k == TW_K[1] {
+            TW_V[1]
+        } else if k == TW_K[2] {
+            TW_V[2]
+        } else {
+            TW_D
+        }
+    }
+}
+pub fn twice_pure_oracle(_history: &List<Zobrist>, h: &Zobrist) -> bool {
+    twice_pure(raw(h))
+}
+fn twice_pure_reset() {
+    unsafe {
+        TW_K = [kani::any(), kani::any(), kani::any()];
+        TW_V = [kani::any(), kani::any(), kani::any()];
+        TW_D = kani::any();
+    }
+}
+fn has_move_oracle_case(which: u8) {
+    let pb = any_wf_board();
+    let st = any_status();
+    let side: bool = kani::any();
+    let trapped: bool = kani::any();
+    let (hash, init): (u64, u64) = (kani::any(), kani::any());
+    let gs = play_state_h(&pb, side, 3, st, trapped, hash, init, 2);
+    g_reset();
+    // one generator at a time (concrete `which`): 0 = pending push with its completion list, 1 = own steps, 2 = push starts, 3 = pull completions
+    unsafe {
+        if which != 1 {
+            G_STEP = None;
+        }
+        if which != 2 {
+            G_PUSH = None;
+        }
+        if which != 3 {
+            G_PULL = None;
+        }
+    }
+    let pbv: u64 = kani::any();
+    unsafe {
+        PBV = pbv;
+    }
+    twice_pure_reset();
+    let pending = matches!(st, PushPullState::MustCompletePush(_, _));
+    kani::assume(pending == (which == 0));
+    kani::cover!(!trapped);
+    let hm = gs.has_move(&pb);
+    // every generated step leads (ghost delta) to the same turn-start hash of the next turn
+    let h0_same_side = hash ^ pbv ^ STEP_VALUES[3] ^ STEP_VALUES[0];
+    let passing_like = h0_same_side == init || twice_pure(h0_same_side ^ PLAYER_TO_MOVE);
+    let step_survives = trapped || !passing_like;
+    let some_action = unsafe {
+        if pending {
+            G_COMP.is_some() && step_survives
+        } else {
+            CP_REP || ((G_STEP.is_some() || G_PULL.is_some() || G_PUSH.is_some()) && step_survives)
+        }
+    };
+    kani::cover!(!some_action);
+    kani::cover!(some_action && passing_like);
+    assert!(hm.is_none() == some_action, "C07: at the fourth step has_move reports a loss exactly when every offered action is withheld by the repetition rules (same predicate as the list side)");
+    if let Some(t) = hm {
+        assert!(t == winner(!side), "C07: ... and it is a loss for the player on move");
+    }
+}
+
+
+// @obl props=C07,C06,C04,C19 tier=quick kind=harness-contract mem=8 est=120 timeout=1800
+// @fns GameState::has_move GameState::has_non_passing_like_action GameState::is_passing_like_action
+// @clause [case: a push is pending: the completion list] has_move at step 3 with the REAL has_non_passing_like_action and the REAL is_passing_like_action underneath it (only the generators, can_pass, the board-hash delta (ghost, Verus contract) and the history oracle are abstracted; nothing here names a private signature below has_move except those): result is None <=> (push pending ? some completion : can_pass(true) || some generated step) whose result neither hashes like the turn start nor has its other-side hash already twice in the history (the same two-disjunct predicate c06_is_passing_like_3 proves for the list side), the filter being off after a capture this turn. Added after seeded/C07e (a history lookup hoisted out of has_move's side only), which changed is_passing_like_action's signature and thereby left c07_has_move undecided.
+#[kani::proof]
+#[kani::unwind(8)]
+#[kani::stub(GameState::extend_with_push_piece_actions, q_push)]
+#[kani::stub(GameState::extend_with_pull_piece_actions, q_pull)]
+#[kani::stub(GameState::extend_with_valid_curr_player_piece_moves, q_steps)]
+#[kani::stub(GameState::must_complete_push_actions, q_completion)]
+#[kani::stub(GameState::can_pass, abs_can_pass)]
+#[kani::stub(crate::zobrist::piece_board_value, pbv_ghost)]
+#[kani::stub(crate::engine::hash_history_contains_hash_twice, twice_pure_oracle)]
+fn c07_has_move_oracle_3_comp() {
+    has_move_oracle_case(0);
+}
+// @obl props=C07,C06,C04,C19 tier=quick kind=harness-contract mem=8 est=120 timeout=1800
+// @fns GameState::has_move GameState::has_non_passing_like_action GameState::is_passing_like_action
+// @clause [case: no push pending, own steps only] has_move at step 3 with the REAL has_non_passing_like_action and the REAL is_passing_like_action underneath it (only the generators, can_pass, the board-hash delta (ghost, Verus contract) and the history oracle are abstracted; nothing here names a private signature below has_move except those): result is None <=> (push pending ? some completion : can_pass(true) || some generated step) whose result neither hashes like the turn start nor has its other-side hash already twice in the history (the same two-disjunct predicate c06_is_passing_like_3 proves for the list side), the filter being off after a capture this turn. Added after seeded/C07e (a history lookup hoisted out of has_move's side only), which changed is_passing_like_action's signature and thereby left c07_has_move undecided.
+#[kani::proof]
+#[kani::unwind(8)]
+#[kani::stub(GameState::extend_with_push_piece_actions, q_push)]
+#[kani::stub(GameState::extend_with_pull_piece_actions, q_pull)]
+#[kani::stub(GameState::extend_with_valid_curr_player_piece_moves, q_steps)]
+#[kani::stub(GameState::must_complete_push_actions, q_completion)]
+#[kani::stub(GameState::can_pass, abs_can_pass)]
+#[kani::stub(crate::zobrist::piece_board_value, pbv_ghost)]
+#[kani::stub(crate::engine::hash_history_contains_hash_twice, twice_pure_oracle)]
+fn c07_has_move_oracle_3_step() {
+    has_move_oracle_case(1);
+}
+// @obl props=C07,C06,C04,C19 tier=quick kind=harness-contract mem=8 est=120 timeout=1800
+// @fns GameState::has_move GameState::has_non_passing_like_action GameState::is_passing_like_action
+// @clause [case: no push pending, push starts only] has_move at step 3 with the REAL has_non_passing_like_action and the REAL is_passing_like_action underneath it (only the generators, can_pass, the board-hash delta (ghost, Verus contract) and the history oracle are abstracted; nothing here names a private signature below has_move except those): result is None <=> (push pending ? some completion : can_pass(true) || some generated step) whose result neither hashes like the turn start nor has its other-side hash already twice in the history (the same two-disjunct predicate c06_is_passing_like_3 proves for the list side), the filter being off after a capture this turn. Added after seeded/C07e (a history lookup hoisted out of has_move's side only), which changed is_passing_like_action's signature and thereby left c07_has_move undecided.
+#[kani::proof]
+#[kani::unwind(8)]
+#[kani::stub(GameState::extend_with_push_piece_actions, q_push)]
+#[kani::stub(GameState::extend_with_pull_piece_actions, q_pull)]
+#[kani::stub(GameState::extend_with_valid_curr_player_piece_moves, q_steps)]
+#[kani::stub(GameState::must_complete_push_actions, q_completion)]
+#[kani::stub(GameState::can_pass, abs_can_pass)]
+#[kani::stub(crate::zobrist::piece_board_value, pbv_ghost)]
+#[kani::stub(crate::engine::hash_history_contains_hash_twice, twice_pure_oracle)]
+fn c07_has_move_oracle_3_push() {
+    has_move_oracle_case(2);
+}
+// @obl props=C07,C06,C04,C19 tier=quick kind=harness-contract mem=8 est=120 timeout=1800
+// @fns GameState::has_move GameState::has_non_passing_like_action GameState::is_passing_like_action
+// @clause [case: no push pending, pull completions only] has_move at step 3 with the REAL has_non_passing_like_action and the REAL is_passing_like_action underneath it (only the generators, can_pass, the board-hash delta (ghost, Verus contract) and the history oracle are abstracted; nothing here names a private signature below has_move except those): result is None <=> (push pending ? some completion : can_pass(true) || some generated step) whose result neither hashes like the turn start nor has its other-side hash already twice in the history (the same two-disjunct predicate c06_is_passing_like_3 proves for the list side), the filter being off after a capture this turn. Added after seeded/C07e (a history lookup hoisted out of has_move's side only), which changed is_passing_like_action's signature and thereby left c07_has_move undecided.
+#[kani::proof]
+#[kani::unwind(8)]
+#[kani::stub(GameState::extend_with_push_piece_actions, q_push)]
+#[kani::stub(GameState::extend_with_pull_piece_actions, q_pull)]
+#[kani::stub(GameState::extend_with_valid_curr_player_piece_moves, q_steps)]
+#[kani::stub(GameState::must_complete_push_actions, q_completion)]
+#[kani::stub(GameState::can_pass, abs_can_pass)]
+#[kani::stub(crate::zobrist::piece_board_value, pbv_ghost)]
+#[kani::stub(crate::engine::hash_history_contains_hash_twice, twice_pure_oracle)]
+fn c07_has_move_oracle_3_pull() {
+    has_move_oracle_case(3);
+}
 // ===========================================================================
 // C04  is_terminal: the official order.  Composition against the callee contracts:
 // rabbit_at_goal / lost_all_rabbits are replaced by the spec functions their in-place
